@@ -31,19 +31,26 @@ func TwoRetNoErr(s string) (string, int)     { return s, 0 }
 func Variadic(s ...string) string            { return "" }
 func Generic[T any](t T) T                   { return t }
 
-func HookGood(dst *Dst, src *Src) error       { return nil }
-func HookNoErr(dst *Dst, src *Src)            {}
-func HookZeroArg()                            {}
-func HookOneArg(dst *Dst)                     {}
-func HookRetInt(dst *Dst, src *Src) int       { return 0 }
+func HookGood(dst *Dst, src *Src) error          { return nil }
+func HookNoErr(dst *Dst, src *Src)               {}
+func HookZeroArg()                               {}
+func HookOneArg(dst *Dst)                        {}
+func HookRetInt(dst *Dst, src *Src) int          { return 0 }
 func HookTwoRet(dst *Dst, src *Src) (int, error) { return 0, nil }
-func HookWrongDst(dst *Src, src *Src)         {}
-func HookWrongSrc(dst *Dst, src *Dst)         {}
-func HookExtra(dst *Dst, src *Src, n int)     {}
-func HookVal(dst Dst, src Src)                {}
+func HookWrongDst(dst *Src, src *Src)            {}
+func HookWrongSrc(dst *Dst, src *Dst)            {}
+func HookExtra(dst *Dst, src *Src, n int)        {}
+func HookVal(dst Dst, src Src)                   {}
 func HookVariadic(dst *Dst, src *Src, xs ...int) {}
 
 func (s *Src) NameErr() (string, error) { return s.Name, nil }
 
 // OnHand is a comma-ok accessor, not an error-returning getter.
 func (s *Src) OnHand() (string, bool) { return s.Name, true }
+
+// Hooks for methods with additional arguments (n int, v interface{}).
+func HookExact(dst *Dst, src *Src, n int, v interface{})        {}
+func HookWide(dst *Dst, src *Src, n interface{}, v interface{}) {}
+func HookNarrow(dst *Dst, src *Src, n int, v int)               {}
+func HookVarTail(dst *Dst, src *Src, n int, vs ...interface{})  {}
+func HookN(dst *Dst, src *Src, n int)                           {}
